@@ -32,6 +32,19 @@ def c13_behaviours(entries, rng, thorough=False):
         k = len(bs)
         for aes, sha in [OTHER_FAILURE_CODES[(k + j) % len(OTHER_FAILURE_CODES)] for j in range(2 if not thorough else len(OTHER_FAILURE_CODES))]:
             bs.append(["stinj %d %d" % (aes, sha), "st 2", "gate %s %s" % (entry, v), "gate %s %s" % (entry, v)])
+        # every in-domain value of every scalar argument meets the same gate (zero-length CBC included): latched failure, and a
+        # first call whose self-tests fail
+        for i, L in enumerate(sig):
+            vals = list(SCALAR_VALID.get(L, [])) if L not in PTR else []
+            if L == "l" and alg in ("cbcenc", "cbcdec"):
+                vals = [0] + vals
+            elif L == "l":
+                vals = [0, 1, 17]
+            for val in (vals if thorough else vals[:2]):
+                vec = valid_vec(sig)
+                vec[i] = str(val)
+                bs.append(["stinj 0 0", "st 1", "gate %s %s" % (entry, " ".join(vec))])
+                bs.append(["stinj 1 0", "st 2", "gate %s %s" % (entry, " ".join(vec)), "gate %s %s" % (entry, " ".join(vec))])
         if "xts" in entry:
             ev = " ".join(["e"] + ["v"] * (len(sig) - 1))
             for st in (0, 2):
@@ -44,7 +57,7 @@ def c13_behaviours(entries, rng, thorough=False):
     return bs
 
 
-SCALAR_VALID = {"l": [16, 32, 48, 64], "L": [16, 17, 31, 63, 64], "t": [8, 12, 16], "w": [1, 16, 48], "F": [1, 3], "a": [20, 1],
+SCALAR_VALID = {"l": [0, 16, 32, 48, 64], "L": [16, 17, 31, 63, 64], "t": [8, 12, 16], "w": [1, 16, 48], "F": [1, 3], "a": [20, 1],
                 "s": [0, 5], "q": [15], "g": [0], "n": [4096, 0], "j": [3, 0, 31]}
 SCALAR_BAD = {"l": [15, 17, 1, 63], "L": [15, 0, 1, 16777217, 1 << 32, (1 << 32) + 16, (1 << 32) + 512, 0xFFFFFFFF00000200, (1 << 63) + 64], "t": [0, 4, 15, 17, 32, 1 << 31, (1 << 32) + 16, (1 << 32) + 8], "w": [49, 64, 1 << 31],
               "F": [4, 8, 128]}
